@@ -356,3 +356,17 @@ class Stream:
             print(f"VIOLATION property={ctx.rep.prop} replay={rp.get('_path', '<replay>')}")
             return 1
         return 1 if fails else 0
+
+
+def pmap_fresh(fn, items, workers=None):
+    """Like pmap, but every item runs in its own freshly forked process (Hdl21's process-global caches make
+    histories observable only from a clean process). The parent must not have elaborated anything."""
+    import multiprocessing as mp
+
+    items = list(items)
+    if not items:
+        return []
+    workers = workers or min(16, os.cpu_count() or 4)
+    ctx = mp.get_context("fork")
+    with ctx.Pool(workers, maxtasksperchild=1) as pool:
+        return pool.map(fn, items, chunksize=1)
